@@ -82,6 +82,46 @@ Proof.
   intros H. apply ev1_sound in H. destruct H as (crt & t & _ & _ & _ & H & _). discriminate.
 Qed.
 
+(* ------------------------------------------------------------------ what the `assert theirTubID` is needed for
+   python -O does not execute assert statements.  The same translated statements without them: the ONLY additional
+   acceptance is the anonymous peer on a listener (no certificate, no my-tub-id), stored as TubRef(None), which names no
+   Tub; every accepted id is still the hash of the presented certificate and, on a client, the dialled id.  (An empty
+   claim is then accepted only from a certificate whose hash is the empty string.) *)
+Lemma ev1_noassert_sound ic target c claimed r :
+  ev1_identity_noassert cert tubid_of ic target c claimed = Ok r ->
+  (r = None /\ c = None /\ claimed = None /\ ic = false) \/
+  (exists crt t, c = Some crt /\ tubid_of crt = t /\ claimed = Some t /\ r = Some t /\ (ic = true -> t = target)).
+Proof.
+  unfold ev1_identity_noassert, ostr_eqb, ostr_truthy, opt_is_some, opt_is_none.
+  destruct c as [crt|], claimed as [cl|], ic; cbv zeta; cbn [negb andb orb]; split_eqb;
+    intros H; try discriminate H; inversion H; subst; clear H;
+    first [ left; repeat split; reflexivity
+          | right; eexists _, _; repeat split; try reflexivity; intros; congruence ].
+Qed.
+
+Lemma ev1_noassert_anonymous_accepted target :
+  ev1_identity_noassert cert tubid_of false target None None = Ok None.
+Proof. reflexivity. Qed.
+
+(* with the asserts in place nothing is lost: whatever the checked version accepts, the unchecked one accepts identically *)
+Lemma ev1_assert_only_removes ic target c claimed r :
+  ev1 ic target c claimed = Ok r -> ev1_identity_noassert cert tubid_of ic target c claimed = Ok r.
+Proof.
+  unfold ev1_identity, ev1_identity_noassert, ostr_eqb, ostr_truthy, opt_is_some, opt_is_none.
+  destruct c as [crt|], claimed as [[|x t]|], ic; cbv zeta; cbn [negb andb orb]; split_eqb;
+    intros H; try discriminate H; exact H.
+Qed.
+
+(* ... and with the certificate coming from crypto.peerFromTransport (which raises when there is none) even the unchecked
+   statements accept only the proven id: the assert is a second line of defence behind twisted's CertificateError *)
+Lemma ev1_noassert_with_certificate ic target crt claimed r :
+  ev1_identity_noassert cert tubid_of ic target (Some crt) claimed = Ok r ->
+  r = Some (tubid_of crt) /\ claimed = Some (tubid_of crt) /\ (ic = true -> tubid_of crt = target).
+Proof.
+  intros H. apply ev1_noassert_sound in H. destruct H as [(_ & H & _)|(c0 & t & Hc & Ht & Hcl & Hr & Htg)]; [discriminate H|].
+  inversion Hc; subst c0. subst t. auto.
+Qed.
+
 (* the two facts about the translated attach_key that the rest relies on *)
 Lemma ak_client tgt : attach_key true tgt tgt = tgt.
 Proof. reflexivity. Qed.
@@ -748,4 +788,41 @@ Proof. vm_compute. reflexivity. Qed.
 
 Example ex_reject_no_leaf :
   handle_hello Z ex_tubid Server [50] [] (pz None [97]) (Some [97; 98]) = Reject "CertificateError".
+Proof. vm_compute. reflexivity. Qed.
+
+(* ------------------------------------------------------------------ inbound references as a history (round 5)
+   every tracker that carries a URL -- however many my-reference sequences, long or short, for new or known clids, the peer
+   sent over this connection -- names the id the connection is registered under *)
+Definition rtab_ok (k : list Z) (t : rtab) : Prop := forall clid u, In (clid, Some u) t -> u = k.
+
+Lemma rt_set_ok k clid t : rtab_ok k t -> forall u, (forall u', u = Some u' -> u' = k) -> rtab_ok k (rt_set clid u t).
+Proof.
+  induction t as [|[c u0] r IH]; intros Hok u Hu; cbn [rt_set]; [exact Hok|].
+  destruct (c =? clid).
+  - intros c' u' [H|H]; [inversion H; subst; apply Hu; reflexivity|apply (Hok c' u'); right; exact H].
+  - intros c' u' [H|H]; [apply (Hok c' u'); left; exact H|].
+    refine (IH _ u Hu c' u' H). intros c2 u2 H2. apply (Hok c2 u2). right; exact H2.
+Qed.
+
+Lemma ref_step_ok k t m : rtab_ok k t -> rtab_ok k (ref_step k t m).
+Proof.
+  intros Hok. destruct m as [clid url]. unfold ref_step.
+  destruct (rt_get clid t) as [old|].
+  - unfold known_clid_url_policy. exact Hok.
+  - destruct url as [u|].
+    + destruct (accept_inbound_ref k u) eqn:E; [|exact Hok].
+      apply inbound_url_rule in E. intros c' u' [H|H]; [inversion H; subst; reflexivity|apply (Hok c' u' H)].
+    + intros c' u' [H|H]; [discriminate H|apply (Hok c' u' H)].
+Qed.
+
+Theorem ref_urls_proven k ms clid u : In (clid, Some u) (ref_run k ms) -> u = k.
+Proof.
+  unfold ref_run.
+  assert (G : forall t, rtab_ok k t -> rtab_ok k (fold_left (ref_step k) ms t)).
+  { induction ms as [|m r IH]; intros t Ht; cbn [fold_left]; [exact Ht|]. apply IH. apply ref_step_ok. exact Ht. }
+  apply (G [] ). intros c' u' [].
+Qed.
+
+Example ex_ref_history :
+  ref_run [1; 2] [(3, None); (3, Some [9; 9]); (4, Some [9; 9]); (5, Some [1; 2]); (5, Some [9; 9])] = [(5, Some [1; 2]); (3, None)].
 Proof. vm_compute. reflexivity. Qed.
